@@ -38,8 +38,8 @@ use tokio_util::codec::{Decoder, Encoder};
 use uuid::Uuid;
 use vcommon::{pick_index, Verdict};
 
-pub const QUICK_CASES: u64 = 12_000;
-pub const THOROUGH_CASES: u64 = 600_000;
+pub const QUICK_CASES: u64 = 120_000;
+pub const THOROUGH_CASES: u64 = 6_000_000;
 
 // ---------------------------------------------------------------------------------------------
 // executor plumbing (same technique as vsim::exec / vsim::remote)
@@ -259,6 +259,10 @@ fn arb_names(min: usize, max: usize, prefix: &'static str) -> BoxedStrategy<Vec<
         proptest::bool::weighted(0.7),
     )
         .prop_map(move |(b1, b2, picks, confusable)| {
+            // very long names belong to the pure sub-check; here they only make the byte-by-byte
+            // schedules slow
+            let cut = |s: String| -> String { s.chars().take(if s.len() % 7 == 0 { 300 } else { 48 }).collect() };
+            let (b1, b2) = (cut(b1), cut(b2));
             let mut pool = variants(&b1);
             if confusable {
                 pool.extend(variants(&b2).into_iter().take(3));
@@ -304,19 +308,19 @@ fn arb_inj() -> impl Strategy<Value = Inj> {
         2 => any::<u8>().prop_map(Inj::Garbage),
         1 => Just(Inj::Ping),
         1 => any::<bool>().prop_map(Inj::Auth),
-        8 => (0u8..8, any::<u8>(), any::<u8>(), arb_body_spec(), 0u8..9, any::<u64>())
+        16 => (0u8..8, any::<u8>(), any::<u8>(), arb_body_spec(), 0u8..9, any::<u64>())
             .prop_map(|(k, node, lane, body, style, esc)| Inj::Valid { k, node, lane, body, style, esc }),
     ]
 }
 
 fn arb_op() -> impl Strategy<Value = Op> {
     prop_oneof![
-        5 => (any::<bool>(), any::<u8>(), any::<u8>(), arb_cap(), arb_cap())
+        4 => (any::<bool>(), any::<u8>(), any::<u8>(), arb_cap(), arb_cap())
             .prop_map(|(side, node, lane, in_cap, out_cap)| Op::AttachDl { side, node, lane, in_cap, out_cap }),
         1 => (any::<bool>(), arb_cap()).prop_map(|(side, cap)| Op::AttachOneWay { side, cap }),
-        10 => (any::<u16>(), 0u8..4, any::<u8>(), any::<u8>(), arb_body_spec())
+        14 => (any::<u16>(), 0u8..4, any::<u8>(), any::<u8>(), arb_body_spec())
             .prop_map(|(c, k, node, lane, body)| Op::ClientSend { c, k, node, lane, body }),
-        10 => (any::<u16>(), 0u8..4, any::<u8>(), arb_body_spec()).prop_map(|(a, k, lane, body)| Op::AgentSend { a, k, lane, body }),
+        14 => (any::<u16>(), 0u8..4, any::<u8>(), arb_body_spec()).prop_map(|(a, k, lane, body)| Op::AgentSend { a, k, lane, body }),
         1 => (any::<u16>(), any::<bool>()).prop_map(|(c, keep_reader)| Op::DetachClient { c, keep_reader }),
         1 => any::<u16>().prop_map(|a| Op::DetachAgent { a }),
         2 => (any::<u16>(), arb_n()).prop_map(|(src, n)| Op::Pump { src, n }),
@@ -325,8 +329,27 @@ fn arb_op() -> impl Strategy<Value = Op> {
         4 => (any::<bool>(), 1u8..40).prop_map(|(side, k)| Op::Poll { side, k }),
         4 => (any::<bool>(), arb_n()).prop_map(|(from_b, n)| Op::Relay { from_b, n }),
         2 => (any::<bool>(), arb_inj()).prop_map(|(to_b, frame)| Op::Inject { to_b, frame }),
-        5 => Just(Op::Settle),
+        4 => Just(Op::Settle),
     ]
+}
+
+/// Opening moves that make the rest of the op list meaningful: a few downlinks on both sides, each
+/// linking (which makes the peer resolve the agent), then a drain.
+fn arb_prelude() -> impl Strategy<Value = Vec<Op>> {
+    proptest::collection::vec((any::<bool>(), any::<u8>(), any::<u8>(), arb_cap(), arb_cap(), any::<bool>()), 0..6).prop_map(|dls| {
+        let mut ops = vec![];
+        for (i, (side, node, lane, in_cap, out_cap, link)) in dls.iter().enumerate() {
+            ops.push(Op::AttachDl { side: *side, node: *node, lane: *lane, in_cap: *in_cap, out_cap: *out_cap });
+            if *link {
+                // `c` picks the newest live client
+                ops.push(Op::ClientSend { c: u16::MAX, k: (i % 2) as u8, node: 0, lane: 0, body: BodySpec { style: 0, extra: String::new() } });
+            }
+        }
+        if !ops.is_empty() {
+            ops.push(Op::Settle);
+        }
+        ops
+    })
 }
 
 pub fn arb_case(max_ops: usize) -> impl Strategy<Value = Case> {
@@ -335,21 +358,22 @@ pub fn arb_case(max_ops: usize) -> impl Strategy<Value = Case> {
             any::<u64>(),
             arb_names(2, 4, "/node"),
             arb_names(1, 3, "lane"),
-            proptest::collection::vec((proptest::bool::weighted(0.8), proptest::bool::weighted(0.8)), 4),
+            proptest::collection::vec((proptest::bool::weighted(0.85), proptest::bool::weighted(0.85)), 4),
         ),
         (
             prop_oneof![Just(16usize), Just(61), Just(256), Just(4096), Just(65536)],
             prop_oneof![Just(1usize), Just(8), Just(47), Just(512), Just(8192)],
-            1usize..9,
+            prop_oneof![1 => Just(1usize), 8 => 2usize..9],
             1usize..9,
             1usize..5,
             prop_oneof![Just(2usize), Just(3), Just(8), Just(64)],
             proptest::bool::weighted(0.75),
         ),
+        arb_prelude(),
         proptest::collection::vec(arb_op(), 1..max_ops),
     )
         .prop_map(
-            |((seed, nodes, lanes, exists), (duplex_cap, agent_cap, reg_buf, attach_q, find_q, budget, b_has_find), ops)| Case {
+            |((seed, nodes, lanes, exists), (duplex_cap, agent_cap, reg_buf, attach_q, find_q, budget, b_has_find), prelude, ops)| Case {
                 seed,
                 nodes: nodes.into_iter().zip(exists).map(|(n, (a, b))| (n, a, b)).collect(),
                 lanes,
@@ -360,7 +384,7 @@ pub fn arb_case(max_ops: usize) -> impl Strategy<Value = Case> {
                 find_q,
                 budget,
                 b_has_find,
-                ops,
+                ops: prelude.into_iter().chain(ops).collect(),
             },
         )
 }
@@ -681,6 +705,8 @@ struct SideRt {
     find_rx: Option<mpsc::Receiver<FindNode>>,
     raw: Option<DuplexStream>,
     raw_eof: bool,
+    /// writes into this side fail (its end of the stream is gone)
+    raw_wclosed: bool,
     out_parser: FrameParser,
     /// bytes emitted by this side that have not yet been written to the other side
     pipe: BytesMut,
@@ -712,9 +738,10 @@ struct World<'c> {
     poison: Option<(usize, Option<u64>, &'static str)>,
     ignored_injected: usize,
     max_rounds: usize,
+    panicked: [bool; 2],
 }
 
-const GARBAGE: &[&str] = &[
+pub const GARBAGE: &[&str] = &[
     "",
     " ",
     "hello",
@@ -842,6 +869,7 @@ impl<'c> World<'c> {
                 find_rx: if has_find { Some(find_rx) } else { None },
                 raw: Some(raw),
                 raw_eof: false,
+                raw_wclosed: false,
                 out_parser: FrameParser::default(),
                 pipe: BytesMut::new(),
                 in_tracker: FrameParser::default(),
@@ -869,6 +897,7 @@ impl<'c> World<'c> {
             poison: None,
             ignored_injected: 0,
             max_rounds: 0,
+            panicked: [false; 2],
         }
     }
 
@@ -876,16 +905,37 @@ impl<'c> World<'c> {
         let mut n = 0;
         while n < max {
             self.flush_attach(side);
-            let s = &mut self.sides[side];
+            let Self { sides, exec_failures, poison, panicked, clock, .. } = self;
+            let s = &mut sides[side];
             let Some(task) = s.task.as_mut() else { break };
             if !s.flag.0.swap(false, Ordering::SeqCst) {
                 break;
             }
             let mut cx = Context::from_waker(&s.waker);
             n += 1;
-            if let Poll::Ready(()) = task.as_mut().poll(&mut cx) {
+            let polled = std::panic::catch_unwind(std::panic::AssertUnwindSafe(|| task.as_mut().poll(&mut cx)));
+            let polled = match polled {
+                Ok(p) => p,
+                Err(e) => {
+                    let msg = if let Some(m) = e.downcast_ref::<&str>() {
+                        m.to_string()
+                    } else if let Some(m) = e.downcast_ref::<String>() {
+                        m.clone()
+                    } else {
+                        "?".to_string()
+                    };
+                    let what = if msg.contains("Incomplete") { "parser-incomplete" } else { "other" };
+                    exec_failures.push((
+                        format!("sock:task-panicked:{}", what),
+                        format!("the RemoteTask of side {} panicked: {} (pending invalid frame: {:?})", side, msg, poison),
+                    ));
+                    panicked[side] = true;
+                    Poll::Ready(())
+                }
+            };
+            if let Poll::Ready(()) = polled {
                 if std::env::var("VERIF_DUMP").is_ok() {
-                    eprintln!("task {} completed at clock {}", side, self.clock);
+                    eprintln!("task {} completed at clock {}", side, clock);
                 }
                 s.task = None;
                 s.attach_tx = None;
@@ -1179,7 +1229,7 @@ impl<'c> World<'c> {
             if written >= max {
                 break;
             }
-            if self.sides[to].raw.is_none() {
+            if self.sides[to].raw.is_none() || self.sides[to].raw_wclosed {
                 self.sides[from].pipe.clear();
                 self.sides[to].inject_q.clear();
                 self.sides[to].cur_inject = None;
@@ -1237,7 +1287,7 @@ impl<'c> World<'c> {
                     }
                 }
                 Poll::Ready(Err(_)) => {
-                    self.sides[to].raw = None;
+                    self.sides[to].raw_wclosed = true;
                     break;
                 }
                 Poll::Pending => break,
@@ -1245,7 +1295,7 @@ impl<'c> World<'c> {
         }
         // 3. end of stream: once everything `from` emitted has been forwarded, close the stream into `to`
         if self.sides[from].raw_eof && self.sides[from].pipe.is_empty() && self.sides[to].cur_inject.is_none() {
-            let idle = self.sides[to].inject_q.is_empty();
+            let idle = self.sides[to].inject_q.is_empty() && !self.sides[to].raw_wclosed;
             if let Some(raw) = self.sides[to].raw.as_mut() {
                 if idle {
                     let _ = harness_op(|cx| Pin::new(&mut *raw).poll_shutdown(cx));
@@ -1313,6 +1363,7 @@ impl<'c> World<'c> {
 
     fn settle(&mut self) {
         let mut rounds = 0usize;
+        let mut idle_rounds = 0usize;
         loop {
             rounds += 1;
             let mut progress = 0usize;
@@ -1327,8 +1378,9 @@ impl<'c> World<'c> {
                 let Self { agents, clock, sent, .. } = self;
                 progress += agents[a].out.pump(usize::MAX, clock, sent);
             }
+            let mut polls = 0;
             for side in 0..2 {
-                progress += self.poll_task(side, 10_000);
+                polls += self.poll_task(side, 10_000);
                 progress += self.answer_finds(side);
             }
             for from in 0..2 {
@@ -1343,12 +1395,23 @@ impl<'c> World<'c> {
                 }
             }
             progress += self.check_done();
+            let progress_io = progress;
+            progress += polls;
             let woken = self.sides.iter().any(|s| s.task.is_some() && s.flag.0.load(Ordering::SeqCst));
             if progress == 0 && !woken {
                 break;
             }
-            if rounds > 200_000 {
-                self.exec_failures.push(("sock:livelock".into(), "settle did not reach a fixpoint in 200000 rounds".into()));
+            // rounds in which the tasks keep waking up without a single byte, frame or request moving
+            if progress_io == 0 {
+                idle_rounds += 1;
+            } else {
+                idle_rounds = 0;
+            }
+            if idle_rounds > 10_000 || rounds > 5_000_000 {
+                self.exec_failures.push((
+                    "sock:livelock".into(),
+                    format!("settle: {} consecutive rounds of task polls without any data moving ({} rounds in all)", idle_rounds, rounds),
+                ));
                 break;
             }
         }
@@ -1464,6 +1527,9 @@ struct Obs {
     wire: [Vec<WireFrame>; 2],
     ignored_injected: usize,
     max_rounds: usize,
+    panicked: [bool; 2],
+    /// a downlink / client attachment was still pending after the final drain although the task runs
+    stuck: [bool; 2],
 }
 
 fn execute(case: &Case) -> Obs {
@@ -1473,6 +1539,12 @@ fn execute(case: &Case) -> Obs {
             w.apply(op);
         }
         w.settle();
+        let mut stuck = [false; 2];
+        for c in &w.clients {
+            if c.done_rx.is_some() && w.sides[c.side].task.is_some() {
+                stuck[c.side] = true;
+            }
+        }
         let exists = (0..2).map(|s| (0..case.nodes.len()).map(|n| w.node_exists(s, n)).collect()).collect();
         Obs {
             sent: w.sent.clone(),
@@ -1488,6 +1560,8 @@ fn execute(case: &Case) -> Obs {
             wire: [w.sides[0].wire.clone(), w.sides[1].wire.clone()],
             ignored_injected: w.ignored_injected,
             max_rounds: w.max_rounds,
+            panicked: w.panicked,
+            stuck,
         }
     })
 }
@@ -1559,78 +1633,101 @@ fn interleaving(recv: &[Msg], srcs: &[SrcSeq], eq: &dyn Fn(&Msg, &Msg) -> bool) 
     go(0, &mut st, recv, srcs, eq, &mut dead, &mut budget)
 }
 
-#[allow(clippy::too_many_arguments)]
-fn check_sink(
-    v: &mut Verdict,
+struct SinkCtx<'a> {
     sink_kind: &'static str,
-    sink_desc: &str,
-    sink_node: &str,
-    sink_lane: Option<&str>,
-    recv: &[Msg],
-    srcs: &[SrcSeq],
-    all_sent: &[Sent],
-    delivered_sources: &mut HashSet<usize>,
-    stats: &mut Stats,
-) {
-    let mut ignore_body: HashSet<K> = HashSet::new();
+    sink_desc: &'a str,
+    sink_node: &'a str,
+    sink_lane: Option<&'a str>,
+    all_sent: &'a [Sent],
+}
+
+struct Analysis {
+    failures: Vec<(String, String)>,
+    delivered: Vec<usize>,
+    delivered_count: usize,
+    exhausted: bool,
+}
+
+/// Strict analysis of one sink: every received message is one that was sent to it, tagged messages
+/// arrive at most once, in their source's order and (where required) at all, and the whole
+/// sequence is an interleaving of one contiguous run per source.
+fn analyze(cx: &SinkCtx<'_>, recv: &[Msg], srcs: &[SrcSeq]) -> Analysis {
+    let SinkCtx { sink_kind, sink_desc, sink_node, sink_lane, all_sent } = cx;
+    let mut out = Analysis { failures: vec![], delivered: vec![], delivered_count: 0, exhausted: false };
     let mut clean = true;
-    for r in recv {
-        if r.node != sink_node || sink_lane.map(|l| l != r.lane).unwrap_or(false) {
-            v.fail(
-                format!("sock:misdelivered:{}", r.k.name()),
-                format!("{} received {} which is addressed elsewhere", sink_desc, r.show()),
-            );
-            clean = false;
-            continue;
-        }
-        let exact = srcs.iter().any(|s| s.msgs.iter().any(|(m, _)| m == r));
-        if exact {
-            continue;
-        }
-        let near = srcs.iter().flat_map(|s| s.msgs.iter()).find(|(m, _)| m.k == r.k && m.node == r.node && m.lane == r.lane);
-        if let Some((m, _)) = near {
-            v.fail(
-                format!("sock:body:{}", r.k.name()),
-                format!("{} received {} but what was sent for that path is e.g. {}: the body changed", sink_desc, r.show(), m.show()),
-            );
-            ignore_body.insert(r.k);
-        } else if r.body.contains("INVALID") {
-            v.fail("sock:invalid-frame-delivered", format!("{} received {} which came from a frame that is not a valid envelope", sink_desc, r.show()));
-            clean = false;
-        } else if all_sent.iter().any(|s| &s.msg == r) {
-            v.fail(
-                format!("sock:misdelivered:{}", r.k.name()),
-                format!("{} received {} which was sent, but not to it", sink_desc, r.show()),
-            );
-            clean = false;
-        } else {
-            v.fail(format!("sock:invented:{}", r.k.name()), format!("{} received {} which nobody sent", sink_desc, r.show()));
-            clean = false;
+    // how many copies of each exact message could have been delivered to this sink
+    let mut avail: std::collections::HashMap<&Msg, usize> = std::collections::HashMap::new();
+    for s in srcs {
+        for (m, _) in &s.msgs {
+            *avail.entry(m).or_default() += 1;
         }
     }
-    let eq = |a: &Msg, b: &Msg| a.k == b.k && a.node == b.node && a.lane == b.lane && (ignore_body.contains(&a.k) || a.body == b.body);
+    for r in recv {
+        if r.node != *sink_node || sink_lane.map(|l| l != r.lane).unwrap_or(false) {
+            out.failures.push((
+                format!("sock:misdelivered:{}", r.k.name()),
+                format!("{} received {} which is addressed elsewhere", sink_desc, r.show()),
+            ));
+            clean = false;
+            continue;
+        }
+        let was_sent = avail.contains_key(r);
+        if let Some(c) = avail.get_mut(r) {
+            if *c > 0 {
+                *c -= 1;
+                continue;
+            }
+        }
+        clean = false;
+        // no (further) copy of exactly this message was sent to this sink
+        let near = srcs
+            .iter()
+            .flat_map(|s| s.msgs.iter())
+            .find(|(m, _)| m.k == r.k && m.node == r.node && m.lane == r.lane && m.body != r.body);
+        if let Some((m, _)) = near {
+            out.failures.push((
+                format!("sock:body:{}", r.k.name()),
+                format!("{} received {} but what was sent for that path is e.g. {}: the body changed", sink_desc, r.show(), m.show()),
+            ));
+        } else if was_sent {
+            out.failures.push((format!("sock:duplicated:{}", sink_kind), format!("{} received {} more often than it was sent", sink_desc, r.show())));
+        } else if r.body.contains("INVALID") {
+            out.failures.push((
+                "sock:invalid-frame-delivered".into(),
+                format!("{} received {} which came from a frame that is not a valid envelope", sink_desc, r.show()),
+            ));
+        } else if all_sent.iter().any(|s| &s.msg == r) {
+            out.failures.push((
+                format!("sock:misdelivered:{}", r.k.name()),
+                format!("{} received {} which was sent, but not to it", sink_desc, r.show()),
+            ));
+        } else {
+            out.failures.push((format!("sock:invented:{}", r.k.name()), format!("{} received {} which nobody sent", sink_desc, r.show())));
+        }
+    }
     // tagged messages identify their source and position
     for s in srcs {
         let mut last: Option<usize> = None;
+        let mut any = false;
         for (i, (m, tagged)) in s.msgs.iter().enumerate() {
-            if !*tagged || ignore_body.contains(&m.k) {
+            if !*tagged {
                 continue;
             }
             let pos: Vec<usize> = recv.iter().enumerate().filter(|(_, r)| *r == m).map(|(j, _)| j).collect();
             if pos.len() > 1 {
-                v.fail(format!("sock:duplicated:{}", sink_kind), format!("{} received {} {} times", sink_desc, m.show(), pos.len()));
+                out.failures.push((format!("sock:duplicated:{}", sink_kind), format!("{} received {} {} times", sink_desc, m.show(), pos.len())));
                 clean = false;
             }
             match pos.first() {
                 Some(p) => {
-                    delivered_sources.insert(s.src);
-                    stats.delivered += 1;
+                    any = true;
+                    out.delivered_count += 1;
                     if let Some(l) = last {
                         if *p < l {
-                            v.fail(
+                            out.failures.push((
                                 format!("sock:reordered:{}", sink_kind),
                                 format!("{} received {} before an earlier message of the same source", sink_desc, m.show()),
-                            );
+                            ));
                             clean = false;
                         }
                     }
@@ -1638,22 +1735,25 @@ fn check_sink(
                 }
                 None => {
                     if i >= s.first_must && i < s.must_end {
-                        v.fail(
+                        out.failures.push((
                             format!("sock:lost:{}", sink_kind),
                             format!("{} never received {} (sent before the last drain, sink registered before it was sent)", sink_desc, m.show()),
-                        );
+                        ));
                         clean = false;
                     }
                 }
             }
         }
+        if any {
+            out.delivered.push(s.src);
+        }
     }
     if clean {
         if recv.len() <= 150 {
-            match interleaving(recv, srcs, &eq) {
+            match interleaving(recv, srcs, &|a: &Msg, b: &Msg| a == b) {
                 Some(true) => {}
                 Some(false) => {
-                    v.fail(
+                    out.failures.push((
                         format!("sock:sequence:{}", sink_kind),
                         format!(
                             "{}: the received sequence is not an interleaving of its sources' sequences (a message without a body was lost, duplicated or reordered). received: [{}] sources: {}",
@@ -1670,14 +1770,67 @@ fn check_sink(
                                 .collect::<Vec<_>>()
                                 .join(" | ")
                         ),
-                    );
+                    ));
                 }
-                None => stats.search_exhausted = true,
+                None => out.exhausted = true,
             }
         } else {
-            stats.search_exhausted = true;
+            out.exhausted = true;
         }
     }
+    out
+}
+
+/// `analyze`, and when that fails: would everything be consistent if the bodies of ONE kind of
+/// envelope were ignored? Then the defect is "the body of that kind changed" and only that is
+/// reported (this keeps the search going past a listed body defect).
+fn check_sink(v: &mut Verdict, cx: &SinkCtx<'_>, recv: &[Msg], srcs: &[SrcSeq], delivered_sources: &mut HashSet<usize>, stats: &mut Stats) {
+    let strict = analyze(cx, recv, srcs);
+    let mut report = |a: &Analysis, stats: &mut Stats| {
+        for s in &a.delivered {
+            delivered_sources.insert(*s);
+        }
+        stats.delivered += a.delivered_count;
+        stats.search_exhausted |= a.exhausted;
+    };
+    if strict.failures.is_empty() {
+        report(&strict, stats);
+        return;
+    }
+    for k in [K::Unlinked, K::Event, K::Command] {
+        if !recv.iter().any(|m| m.k == k) && !srcs.iter().any(|s| s.msgs.iter().any(|(m, _)| m.k == k)) {
+            continue;
+        }
+        let norm = |m: &Msg| if m.k == k { Msg { body: String::new(), ..m.clone() } } else { m.clone() };
+        let recv_n: Vec<Msg> = recv.iter().map(norm).collect();
+        let srcs_n: Vec<SrcSeq> = srcs
+            .iter()
+            .map(|s| SrcSeq {
+                src: s.src,
+                msgs: s.msgs.iter().map(|(m, t)| (norm(m), *t && m.k != k)).collect(),
+                first_must: s.first_must,
+                must_end: s.must_end,
+            })
+            .collect();
+        let relaxed = analyze(cx, &recv_n, &srcs_n);
+        if relaxed.failures.is_empty() {
+            let example = strict.failures.iter().find(|(sig, _)| sig.starts_with("sock:body:")).map(|(_, d)| d.clone()).unwrap_or_else(|| {
+                format!(
+                    "{}: received [{}]; consistent with what was sent only if the bodies of {} envelopes are ignored",
+                    cx.sink_desc,
+                    recv.iter().filter(|m| m.k == k).map(|m| m.show()).collect::<Vec<_>>().join("; "),
+                    k.name()
+                )
+            });
+            v.fail(format!("sock:body:{}", k.name()), example);
+            report(&relaxed, stats);
+            return;
+        }
+    }
+    for (sig, d) in &strict.failures {
+        v.fail(sig.clone(), d.clone());
+    }
+    report(&strict, stats);
 }
 
 #[derive(Default)]
@@ -1714,7 +1867,27 @@ pub fn check(case: &Case) -> Verdict {
     for (sig, detail) in &obs.exec_failures {
         v.fail(sig.clone(), detail.clone());
     }
-    let horizon = obs.horizon.unwrap_or(0);
+    let mut horizon = obs.horizon.unwrap_or(0);
+    for side in 0..2 {
+        if obs.stuck[side] {
+            v.fail(
+                if case.reg_buf == 1 { "sock:stuck:attach-never-completes:registration-buffer=1" } else { "sock:stuck:attach-never-completes:registration-buffer>1" },
+                format!(
+                    "side {}: the task is running and idle after the final drain but the attachment of {} never completed (their messages can never leave; everything arriving on that side is stalled)",
+                    side,
+                    obs.clients
+                        .iter()
+                        .enumerate()
+                        .filter(|(_, c)| c.0 == side && c.2.is_none())
+                        .map(|(i, _)| format!("client {}", i))
+                        .collect::<Vec<_>>()
+                        .join(", ")
+                ),
+            );
+            // the liveness half of the oracle is void once a side is stuck; safety is still checked
+            horizon = 0;
+        }
+    }
     let mut delivered_sources: HashSet<usize> = HashSet::new();
     let mut stats = Stats::default();
 
@@ -1761,18 +1934,9 @@ pub fn check(case: &Case) -> Verdict {
             if recv.is_empty() && srcs.is_empty() {
                 continue;
             }
-            check_sink(
-                &mut v,
-                "agent",
-                &format!("the agent for node {} on side {}", short(node), side),
-                node,
-                None,
-                &recv,
-                &srcs,
-                &obs.sent,
-                &mut delivered_sources,
-                &mut stats,
-            );
+            let desc = format!("the agent for node {} on side {}", short(node), side);
+            let cx = SinkCtx { sink_kind: "agent", sink_desc: &desc, sink_node: node, sink_lane: None, all_sent: &obs.sent };
+            check_sink(&mut v, &cx, &recv, &srcs, &mut delivered_sources, &mut stats);
         }
     }
 
@@ -1827,22 +1991,13 @@ pub fn check(case: &Case) -> Verdict {
         if recv.is_empty() && srcs.is_empty() {
             continue;
         }
-        check_sink(
-            &mut v,
-            "downlink",
-            &format!("downlink {} for ({},{}) on side {}", ci, short(node), short(lane), side),
-            node,
-            Some(lane),
-            &recv,
-            &srcs,
-            &obs.sent,
-            &mut delivered_sources,
-            &mut stats,
-        );
+        let desc = format!("downlink {} for ({},{}) on side {}", ci, short(node), short(lane), side);
+        let cx = SinkCtx { sink_kind: "downlink", sink_desc: &desc, sink_node: node, sink_lane: Some(lane), all_sent: &obs.sent };
+        check_sink(&mut v, &cx, &recv, &srcs, &mut delivered_sources, &mut stats);
     }
 
     // an invalid frame: documented reaction is a close frame with the protocol error code
-    if let Some((t, Some(_), what)) = obs.poison {
+    if let Some((t, Some(_), what)) = obs.poison.filter(|p| !obs.panicked[p.0]) {
         if !obs.task_done[t] {
             v.fail(format!("sock:invalid-frame-not-closed:{}", what), format!("side {} read a {} frame but its task is still running after the drain", t, what));
         } else {
@@ -1906,5 +2061,6 @@ pub fn check(case: &Case) -> Verdict {
     v.class_if(obs.exists.iter().any(|s| s.iter().any(|e| !*e)), "missing-node");
     v.class_if(obs.task_done[0] || obs.task_done[1], "connection-closed");
     v.class_if(obs.max_rounds > 50, "settle>50-rounds");
+    v.class_if(case.reg_buf == 1, "reg-buf=1");
     v
 }
